@@ -64,6 +64,34 @@ def run(chk):
                        'of the declared classes: Output = Nat only if the result is never negative (sign abstraction; shared with C02/C26)')
     n3 = c26.sign_rules(chk, fx, 'C01-R3')
     chk.floor('declared numeric operator rows', n3, 20)
+    # ---- R5: the delimiters of a string literal
+    chk.rule('C01-R5', 'a string literal loses exactly its own delimiters: in ValueObj::from_str the delimiter stripped at the end is decided by the one stripped at the start (one '
+                       'flag), not read again from the text — the lexer has already unescaped `\\"`, so a single-quoted literal ending in two escaped quotes looks like a closing `"""`')
+    VALF = 'crates/erg_compiler/ty/value.rs'
+    fs = [f_ for f_ in fx.fns(VALF) if T.norm(f_['path']) == 'ValueObj::from_str']
+    if chk.need(len(fs) == 1, 'ValueObj::from_str not found'):
+        tests = []
+        for n, ctx in T.walk_ctx(fs[0]['body']):
+            if n.get('k') == 'If':
+                cs = T.show(n['c'])
+                lits = [x['v']['str'] for x in T.walk(n['c']) if x.get('k') == 'Lit' and isinstance(x.get('v'), dict) and 'str' in x['v']]
+                if '"""' in lits:
+                    where_ = 'start' if '..3' in cs.replace(' ', '') or 'starts_with' in cs else ('end' if 'len()' in cs or 'ends_with' in cs else '?')
+                    locs = {x['n'] for x in T.walk(n['c']) if x.get('k') == 'Local'}
+                    tests.append((where_, locs, n))
+        starts = [t for t in tests if t[0] == 'start']
+        ends = [t for t in tests if t[0] == 'end']
+        if chk.need(starts or ends, 'from_str: the `"""` delimiter tests were not found'):
+            paired = True
+            for _, locs, n in ends:
+                # an end test is paired if it consults a flag (a bool local) rather than only the text
+                flags = [l_ for l_ in locs if l_ not in ('content', 'self', 's')]
+                if not flags:
+                    paired = False
+                    chk.bad('C01-R5', 'ValueObj::from_str', 'unpaired-delimiter', 'from_str strips a closing `"""` whenever the text ends with three quotes, whatever was stripped at the start: '
+                            '`print! "a\\"\\""` prints `a` (the two escaped quotes and the closing quote are taken for a closing `"""`)', VALF, n['l'])
+            if paired:
+                chk.ok('C01-R5', 'paired', sample='the closing delimiter follows the opening one')
     # ---- R4: the equality that decides whether two constants share a slot
     from sa.kinds import casts as K4
     chk.rule('C01-R4', 'two constants share a slot of the constant pool only if they are the same value: the equality used by the pool look-ups (PyCodeGenerator::same_const -> '
